@@ -3,49 +3,10 @@ use proptest::prelude::*;
 use serde::{Deserialize, Serialize};
 use tevec::prelude::{unit, DateTime, Time, TimeDelta, TimeUnitTrait};
 use tvh::civil;
+use tvh::fuzzable::{all_parsers, ALPHABET, FORMATS};
 use tvh::engine::{fail, main_for, sub, CheckResult, Obs, Property, Tier};
 
-const FORMATS: [&str; 11] = [
-    "%Y-%m-%d %H:%M:%S",
-    "%Y-%m-%d %H:%M:%S.%f",
-    "%Y-%m-%d",
-    "%Y%m%d",
-    "%Y%m%d %H%M%S",
-    "%d/%m/%Y",
-    "%d/%m/%Y H%M%S",
-    "%Y%m%d%H%M%S",
-    "%d/%m/%YH%M%S",
-    "%Y/%m/%d",
-    "%Y/%m/%d %H:%M:%S",
-];
-
-const ALPHABET: [char; 26] = ['0', '1', '2', '5', '9', '+', '-', '.', ' ', 'n', 's', 'u', 'm', 'h', 'd', 'w', 'o', 'y', 'x', 'é', ':', '/', 'T', 'e', '7', '3'];
 const UNITS: [&str; 10] = ["ns", "us", "ms", "s", "m", "h", "d", "w", "mo", "y"];
-
-/// every parser entry point on one string; none may panic (a panic is caught by the engine and
-/// reported with the panic site as signature)
-fn all_parsers(s: &str) -> usize {
-    let mut oks = 0;
-    oks += TimeDelta::parse(s).is_ok() as usize;
-    oks += s.parse::<TimeDelta>().is_ok() as usize;
-    fn dt<U: TimeUnitTrait>(s: &str) -> usize
-    where
-        DateTime<U>: From<chrono::DateTime<chrono::Utc>>,
-    {
-        let mut oks = DateTime::<U>::parse(s, None).is_ok() as usize;
-        oks += s.parse::<DateTime<U>>().is_ok() as usize;
-        for f in FORMATS.iter() {
-            oks += DateTime::<U>::parse(s, Some(f)).is_ok() as usize;
-        }
-        oks
-    }
-    oks += dt::<unit::Second>(s) + dt::<unit::Millisecond>(s) + dt::<unit::Microsecond>(s) + dt::<unit::Nanosecond>(s);
-    oks += Time::parse(s, None).is_ok() as usize;
-    oks += Time::parse(s, Some("%H:%M:%S")).is_ok() as usize;
-    oks += Time::parse(s, Some("%H%M%S%.f")).is_ok() as usize;
-    oks += s.parse::<Time>().is_ok() as usize;
-    oks
-}
 
 #[derive(Clone, Debug, Serialize, Deserialize)]
 struct StrCase {
@@ -314,7 +275,9 @@ fn main() {
          round-trip cases = instants (years 1..=9999; 1678..2261 for ns) at each unit: parse(strftime(None)) == t through parse(None) / FromStr / explicit default format, and for the listed formats that carry the full instant (whole seconds) or the date (midnights), with fmt = Some(f) and None; time of day through %H:%M:%S%.f. \
          Non-trivial = (totality) non-empty string not rejectable at its first character; (terms) >= 2 terms with a sign; (round trip) sub-millisecond part or pre-1970; distinct = distinct serialised cases",
     )
-    .assume("compact %Y%m%d-style formats are round-tripped for four-digit years only");
+    .assume("compact %Y%m%d-style formats are round-tripped for four-digit years only")
+    .assume("thorough tier: libFuzzer target fz_parse (bytes -> lossy UTF-8 or 26-symbol alphabet) runs the same parser set under ASan")
+    .raw(|bytes| ("parsers_total".to_string(), serde_json::json!({"s": tvh::fuzzable::decode_parse(bytes)})));
     p.add(sub("parsers_total", 60000, 3000000, str_case, check_total));
     p.add(sub("wellformed_term_sum", 30000, 1000000, term_case, check_terms));
     p.add(sub("datetime_roundtrip", 30000, 1000000, rt_case, check_rt));
